@@ -4,7 +4,7 @@
     Constant / Extract Inductive of our own. *)
 Require Extraction.
 Require Import ExtrOcamlBasic.
-From NX Require Import Frame Pad Records Request Info Stream Reasm Config Handshake DummyDev Deliver.
+From NX Require Import Frame Pad Records Request Info Stream Reasm Config Handshake DummyDev Deliver Codec Family.
 Extraction "model.ml" Frame.frame_create Frame.frame_decode Frame.recv_dispatch
   Frame.hdr_decode Frame.crc16 Crc.crc_spec Pad.data_align
   Records.chan_new Records.dev_new Records.chan_setattr Records.dev_setattr Records.get
@@ -17,4 +17,5 @@ Extraction "model.ml" Frame.frame_create Frame.frame_decode Frame.recv_dispatch
   Config.step Config.connected Config.run
   Handshake.connect Handshake.nx_step Handshake.nx0 Handshake.disconnect
   DummyDev.dummy_handle
-  Deliver.deliver Deliver.subscribe Deliver.unsubscribe Deliver.qget.
+  Deliver.deliver Deliver.subscribe Deliver.unsubscribe Deliver.qget
+  Codec.krecv_all Codec.kscan Family.fam_codec.
